@@ -450,6 +450,11 @@ class MainTransformer(object):
     def _resolve_toplevel(self, type_str, type_node=None, node=None, parent=None):
         """Like _resolve(), but attempt to preserve more attributes of original type."""
         result = self._resolve(type_str, type_node=type_node, node=node, parent=parent)
+        if not result.resolved and isinstance(type_node, (ast.Array, ast.List, ast.Map)):
+            # An unknown type has been warned about. Keep the container the
+            # C type stands for: the unresolved type would later be resolved
+            # by that C type to a container without element types.
+            return type_node
         # If we replace a node with a new type (such as an annotated) we
         # might lose the ctype from the original node.
         if type_node is not None:
